@@ -172,8 +172,12 @@ def conforms(d, v):
         return isinstance(v, tuple) and len(v) >= len(d[1]) and all(conforms(e, x) for e, x in zip(d[1], v))
     if k == 'dict':
         return isinstance(v, dict) and all(conforms(d[1], a) and conforms(d[2], b) for a, b in v.items())
-    if k in ('union', 'xor'):
+    if k == 'union':
         return any(conforms(x, v) for x in d[1:])
+    if k == 'xor':
+        # exactly one argument describes the value (the descriptors used here have constrained arguments only: the
+        # exact-type shortcut of OneOf -- known finding K-C09 -- applies to plain-type arguments)
+        return sum(1 for x in d[1:] if conforms(x, v)) == 1
     if k == 'opt':
         return v is None or conforms(d[1], v)
     if k == 'andnot':
